@@ -1,7 +1,7 @@
 #!/bin/sh
 # tools/run_all.sh [quick|thorough] — run every claimed check against /repo (regenerates all evidence files)
 tier="${1:-quick}"
-cd /verif
+cd "$(dirname "$0")/.."
 for id in $(python3 -c "import json;print(' '.join(c['property_id'] for c in json.load(open('MANIFEST.json'))['checks']))"); do
   ./check "$id" "$tier" 2>/dev/null | grep -E "^(VIOLATION|KNOWN-FINDING|C[0-9A-Z]+ )" | cut -c1-200
 done
